@@ -97,6 +97,17 @@ def admitServerChain (min : Ver) (mode : Mode) (authz : Bool) (offered : List Ve
   | .selfSigned _, _ :: _ :: _ => none
   | _, _ => admitServer min mode authz offered chain.head?
 
+/-- a peer as the server sees it: the versions it offers and its Certificate message -/
+abbrev Peer := List Ver × List Cert
+
+/-- Several peers, one after the other (or at the same time), on one server instance:
+    `handle_connection` is a function of the immutable configuration and of the connection at
+    hand — nothing about an earlier peer (its certificate, its role, whether it was admitted) is
+    kept.  One outcome per peer, in order. -/
+def admitServerSeq (min : Ver) (mode : Mode) (authz : Bool) (peers : List Peer) :
+    List (Option Admission) :=
+  peers.map fun p => admitServerChain min mode authz p.1 p.2
+
 /-- `TlsClientConfig::handle_connection` -/
 def admitClient (min : Ver) (mode : Mode) (name : Option String) (offered : List Ver)
     (server : Option Cert) : Option Ver :=
